@@ -81,6 +81,13 @@ func parseExtensions(e []AnyExtension) ([]config.ExtensionConfig, error) {
 				return nil, fmt.Errorf("field '%v' can't be casted properly", innerStructTyp.Name)
 			}
 
+			//Oid() can't report an error later on, so check the format now
+			if custom, isCustom := innerStructAny.(CustomExtension); isCustom {
+				if _, err := cert.OidFromString(custom.OidStr); err != nil {
+					return nil, fmt.Errorf("custom extension oid '%v' is not valid: %v", custom.OidStr, err)
+				}
+			}
+
 			out = append(out, innerStruct)
 		}
 
